@@ -694,23 +694,23 @@ prop(
 TECHNIQUE = {
     "C01": "runtime differential monitoring: real hybrid_protocol on 3xS in-memory helpers vs independent plaintext reference; hangs decided by paused-clock quiescence; shuttle schedules; H5 stage log classifies failures",
     "C02": "runtime fault injection: one sender's chunk altered through the stream interceptor on a replayed deterministic execution; outcome oracle (abort / honest shares determine reference result)",
-    "C03": "runtime fault enumeration on recorded and transmitted multiplication bits against a reference three-party multiplication model; real Batch::validate on three helpers",
+    "C03": "runtime fault enumeration on recorded and transmitted multiplication bits against a reference three-party multiplication model; real Batch::validate on three helpers; deviating-prover family (every non-empty set of non-zero verifier differences) against the real verifier; maximum recursion depth batch",
     "C04": "runtime additive-fault injection on MAC-protected protocols (incl. coordinated cross-lane attack, every malicious opening flavour, adaptive opened-key and rushing deviating-party attacks); binomial allowance for Fp31",
     "C05": "runtime multiset / share-consistency oracle on sharded shuffles (incl. one table of more than 2^20 rows) plus fault injection on tables and held rows (bit faults and row permutations), an adaptive key-aware tag-forging helper and a rushing helper that shifts the MAC key share it opens",
-    "C06": "runtime equality/inequality checks on three PRSS endpoints plus offline checker over the hook-H5 log of every PRSS draw (no reuse, no collision)",
+    "C06": "runtime equality/inequality checks on three PRSS endpoints (incl. long step strings, seed-distribution fault), block-consumption probe of multi-block values, offline checker over the hook-H5 log of every PRSS draw (no reuse, no collision, per-shard vs replicated values) incl. queries through the production entry point",
     "C07": "runtime differential monitoring of every circuit against plaintext reference functions (exhaustive for small widths, 256 lanes per run)",
     "C08": "runtime exhaustive axiom checking, independent big-integer reference, run-time irreducibility/primality certificates of the exported moduli",
     "C09": "runtime round-trip and canonicity oracle (exhaustive for <=2-byte types), naive reference for transposes; Miri on kernels",
     "C10": "runtime fault enumeration (every bit flip / truncation / garbage) with panic capture on the parse+decrypt pipeline; Miri on parsers",
-    "C11": "runtime monitoring of the real Query::execute with an independent routing oracle (tag mod S); hook-H5 switch ends the query after the duplicate check",
-    "C12": "scripted-randomness enumeration of the samplers, two independent references for the truncation point, three-helper runs for padding and noise",
-    "C13": "offline checker over client-boundary histories (unique payloads) under shuttle random/PCT/DFS, paused clock, threads and a deterministic poll scheduler",
-    "C14": "model-based checking against a reference byte queue plus history checkers under shuttle, deterministic poll scheduler, threads; Miri",
-    "C15": "event-log monitors (order, window, re-poll, progress) under a deterministic poll scheduler over all completion permutations; multi-thread build; Miri",
+    "C11": "runtime monitoring of the real Query::execute with an independent routing oracle (tag mod S); hook-H5 switch ends the query after the duplicate check; duplicate set in lock-step with a reference set over near-equal tags",
+    "C12": "scripted-randomness enumeration of the samplers, two independent references for the truncation point, three-helper runs for padding and noise (left-out helper per pass), wire monitor of the padding passes on every shard of complete hybrid runs",
+    "C13": "offline checker over client-boundary histories (unique payloads) under shuttle random/PCT/DFS, paused clock, threads and a deterministic poll scheduler (new waker per poll, second polls); full-window workloads up to 2^18 records; ThreadSanitizer on the thread workload",
+    "C14": "model-based checking against a reference byte queue plus history checkers under shuttle, deterministic poll scheduler (waker identity: shared wakers, futures changing hands), threads; fallible records and upstream errors on the receive side; Miri and ThreadSanitizer",
+    "C15": "event-log monitors (order, window, re-poll, progress, first error) under a deterministic poll scheduler over all completion permutations; spawning implementation on real threads (ThreadSanitizer) and at quiescence on a paused current-thread runtime; Miri",
     "C16": "event log req/begin/end/release with one logical clock and an offline rule checker over all arrival permutations; real DZKP and MAC users",
     "C17": "runtime differential monitoring against a reference parser over all chunkings (with Pending, empty chunks, upstream errors); Miri",
     "C18": "history enumeration through the production request handlers against an independent reference automaton, run-until-idle under a paused clock",
-    "C19": "unique-id histories: multiset/placement oracle, cross-helper and cross-schedule order comparison; fault injection on input and shard streams; shuttle",
+    "C19": "unique-id histories: multiset/placement oracle, cross-helper and cross-schedule order comparison; fault injection on input and shard streams; shuttle; pseudonym order after compute_prf_and_reshard across helpers and timings",
     "C20": "route discovery from source + request matrix over in-process handler and real TLS/plain loopback listeners (pre-bound and self-bound; HTTP/1.1 and HTTP/2 request forms; network configurations with unpinned peers; server configurations with missing / incomplete TLS material) with a default-deny oracle",
 }
 
